@@ -67,6 +67,9 @@ func (s *synchronizer) sync(_ context.Context, res Response) (Response, bool, er
 	fulfilled := s.cycle.counter == s.nodeCount
 	if fulfilled {
 		s.cycle.counter = 0
+		// Acknowledge with the response merged over the whole cycle: unauthorized if any
+		// node refused, and the latest commit end of all nodes.
+		return s.cycle.res, true, nil
 	}
-	return res, fulfilled, nil
+	return res, false, nil
 }
